@@ -38,8 +38,29 @@ KINDS = (lambda i: i, lambda i: "s%d" % i, lambda i: i + 0.5, lambda i: (i, "t")
 PADS = ("float0", "none", "sentinel", "default")
 
 
+class Falsy(object):
+    """A distinct object whose truth value is False."""
+    def __init__(self, i):
+        self.i = i
+
+    def __bool__(self):
+        return False
+    __nonzero__ = __bool__
+
+    def __repr__(self):
+        return "Falsy(%d)" % self.i
+
+
+# fresh, pairwise distinct objects that are all FALSE in a boolean context: what a block holds is never to be
+# confused with whether it is true
+FALSY_KINDS = (lambda i: Falsy(i), lambda i: [], lambda i: {}, lambda i: set(), lambda i: bytearray())
+
+
 def make_items(n, shift=0):
-    """n distinct heterogeneous objects; none of them is (or equals) a pad value."""
+    """n distinct heterogeneous objects; none of them is (or equals) a pad value.  Every third run (by `shift`)
+    uses objects that are all falsy."""
+    if shift % 3 == 2:
+        return [FALSY_KINDS[(i + shift) % len(FALSY_KINDS)](i) for i in range(1, n + 1)]
     return [KINDS[(i + shift) % len(KINDS)](i) for i in range(1, n + 1)]
 
 
